@@ -21,7 +21,8 @@ pub struct C11;
 /// Front-end under test.
 #[derive(Debug, Clone, Copy, PartialEq, Eq)]
 pub struct Fe {
-    /// 0: io::Read + read/next, 1: io::Read + read_nb/next_nb, 2: embedded-hal reader + read_nb/next_nb
+    /// 0: io::Read + read/next, 1: io::Read + read_nb/next_nb, 2: embedded-hal reader + read_nb/next_nb,
+    /// 3: embedded-hal reader through SmlReader::from_eh_reader (default buffer)
     pub api: u8,
     pub poll_next: bool,
     /// None: growable buffer; Some(n): ArrayBuf<n>
@@ -152,38 +153,48 @@ fn run_fe<K: BufKind>(fe: Fe, script: &[Step]) -> Result<Vec<(usize, Ev)>, Strin
             }
             Err(format!("reader produced more than {} results", cap))
         }
-        _ => {
+        api => {
             let st = Rc::new(Cell::new((0usize, 0usize)));
             let beyond = Rc::new(Cell::new(false));
             let src = EhScript { script: script.to_vec(), st: st.clone(), beyond: beyond.clone() };
-            let mut reader = K::builder().from_eh_reader(src);
-            let mut out = Vec::new();
-            let cap = script.len() + 3;
-            let mut calls = 0;
-            while st.get().0 < script.len() {
-                calls += 1;
-                if calls > cap {
-                    return Err(format!("reader produced more than {} results", cap));
-                }
-                let ev = if fe.poll_next {
-                    match reader.next_nb::<DecodedBytes>() {
-                        Ok(None) => Ev::End,
-                        Ok(Some(m)) => Ev::Msg(m.to_vec()),
-                        Err(e) => conv_nb_eh(Err(e)),
+            macro_rules! drive_eh {
+                ($reader:expr) => {{
+                    let mut reader = $reader;
+                    let mut out = Vec::new();
+                    let cap = script.len() + 3;
+                    let mut calls = 0;
+                    while st.get().0 < script.len() {
+                        calls += 1;
+                        if calls > cap {
+                            return Err(format!("reader produced more than {} results", cap));
+                        }
+                        let ev = if fe.poll_next {
+                            match reader.next_nb::<DecodedBytes>() {
+                                Ok(None) => Ev::End,
+                                Ok(Some(m)) => Ev::Msg(m.to_vec()),
+                                Err(e) => conv_nb_eh(Err(e)),
+                            }
+                        } else {
+                            conv_nb_eh(reader.read_nb::<DecodedBytes>())
+                        };
+                        if beyond.get() {
+                            // the call ran past the end of the script: its would-block is the harness's, not a scripted one
+                            if ev != Ev::IoWouldBlock(0) {
+                                return Err(format!("polling an idle serial source returned {}", ev.short()));
+                            }
+                            break;
+                        }
+                        out.push((st.get().1, ev));
                     }
-                } else {
-                    conv_nb_eh(reader.read_nb::<DecodedBytes>())
-                };
-                if beyond.get() {
-                    // the call ran past the end of the script: its would-block is the harness's, not a scripted one
-                    if ev != Ev::IoWouldBlock(0) {
-                        return Err(format!("polling an idle serial source returned {}", ev.short()));
-                    }
-                    break;
-                }
-                out.push((st.get().1, ev));
+                    Ok(out)
+                }};
             }
-            Ok(out)
+            if api == 3 {
+                // the constructor with the default 8 KiB buffer
+                drive_eh!(sml_rs::SmlReader::from_eh_reader(src))
+            } else {
+                drive_eh!(K::builder().from_eh_reader(src))
+            }
         }
     }
 }
@@ -209,7 +220,8 @@ fn fe_name(fe: Fe) -> String {
         fe.cap.map(|c| format!("ArrayBuf<{c}>")).unwrap_or_else(|| "Vec".into()),
         match fe.api {
             0 | 1 => "from_reader",
-            _ => "from_eh_reader",
+            2 => "from_eh_reader",
+            _ => "from_eh_reader(default buffer)",
         },
         match (fe.api, fe.poll_next) {
             (0, true) => "next",
@@ -245,7 +257,7 @@ pub fn eval_input(i: &Input, obs: &mut Obs) -> Result<(), Fail> {
     let fe = i.fe;
     let who = fe_name(fe);
     let script = build_script(&i.stream, &i.faults);
-    let eh = fe.api == 2;
+    let eh = fe.api >= 2;
     let cap_fail = |m: String| Fail::new("reader-step-cap", format!("{who}: {m}\nscript = {}", show_script(&script)));
     let got = run_cfg(fe, &script).map_err(cap_fail)?;
     let ctx = |msg: String| format!("{who}: {msg}\nresults = {}\nscript  = {}", drive::show_pos(&got), show_script(&script));
@@ -361,7 +373,8 @@ pub fn eval_input(i: &Input, obs: &mut Obs) -> Result<(), Fail> {
     obs.class(format!("api:{}", match fe.api {
         0 => "io-blocking",
         1 => "io-nb",
-        _ => "eh-nb",
+        2 => "eh-nb",
+        _ => "eh-nb-default-buffer",
     }));
     obs.nontrivial_if(inside);
     Ok(())
@@ -458,7 +471,7 @@ impl Prop for C11 {
             a
         });
         let inside = prop::option::weighted(0.8, (any::<u16>(), prop_oneof![3 => Just(Step::WouldBlock), 1 => Just(Step::Interrupted), 3 => (0u8..6).prop_map(Step::Other)]));
-        (toks, fault_specs(4, 3), 0u8..3, any::<bool>(), prop::option::weighted(0.4, any::<u16>()), inside)
+        (toks, fault_specs(4, 3), 0u8..4, any::<bool>(), prop::option::weighted(0.4, any::<u16>()), inside)
             .prop_map(|(toks, faults, api, poll_next, cap, inside)| Case { toks, faults, api, poll_next, cap, inside })
             .boxed()
     }
@@ -508,14 +521,14 @@ impl Prop for C11 {
             }
         }
         let api = kv.get_u("api")? as u8;
-        if api > 2 {
+        if api > 3 {
             return Err("api out of range".into());
         }
         Ok(Input { stream: kv.get_b("stream")?, faults: faults_from_kv(kv)?, fe: Fe { api, poll_next: kv.get_u("poll_next")? != 0, cap } })
     }
 
     fn exhaustive_desc(_tier: Tier) -> String {
-        "for 12 small streams (single frames with escape / zero / 0x1b tails, frame + noise + frame, broken frame + frame): one fault of each kind {WouldBlock, Interrupted, Other} at every inter-byte position x 6 front-end configurations".into()
+        "for 12 small streams (single frames with escape / zero / 0x1b tails, frame + noise + frame, broken frame + frame): one fault of each kind {WouldBlock, Interrupted, Other} at every inter-byte position x 7 front-end configurations".into()
     }
 
     fn exhaustive(_tier: Tier, shard: usize, nshards: usize, f: &mut dyn FnMut(&Input) -> bool) {
@@ -544,7 +557,7 @@ impl Prop for C11 {
         for s in &streams {
             for p in 0..=s.len() {
                 for step in [Step::WouldBlock, Step::Interrupted, Step::Other(1)] {
-                    for (api, poll_next, cap) in [(0u8, true, None), (0, false, Some(64usize)), (1, true, None), (1, false, None), (2, true, Some(64)), (2, false, None)] {
+                    for (api, poll_next, cap) in [(0u8, true, None), (0, false, Some(64usize)), (1, true, None), (1, false, None), (2, true, Some(64)), (2, false, None), (3, true, None)] {
                         if g % nshards == shard && !f(&Input { stream: s.clone(), faults: vec![(p, step)], fe: Fe { api, poll_next, cap } }) {
                             return;
                         }
